@@ -122,6 +122,25 @@ func (r *Report) Floor(rule, what string, have, min int) bool {
 // Count adds to a named counter.
 func (r *Report) Count(name string, n int) { r.Counters[name] += n }
 
+// Keys lists the obligation keys recorded so far.
+func (r *Report) Keys() []string {
+	out := make([]string, 0, len(r.Obls))
+	for _, o := range r.Obls {
+		out = append(out, o.Key)
+	}
+	return out
+}
+
+// Assume records an assumption under which obligations were discharged (once).
+func (r *Report) Assume(a string) {
+	for _, x := range r.Assumptions {
+		if x == a {
+			return
+		}
+	}
+	r.Assumptions = append(r.Assumptions, a)
+}
+
 // KnownFinding is one entry of known_findings.json.
 type KnownFinding struct {
 	Property  string `json:"property"`
